@@ -190,6 +190,8 @@ func checkC04(P *Prog, r *Result) {
 	r.floor("C04/absent-at-provider", 2)
 	// ---- present-at-provider: the converse ----
 	P.checkPresentAtProvider(r, "C04/present-at-provider")
+	// ---- a nil pointer is an absent record, not an unsupported one ----
+	P.checkNilRecordAbsent(r, "C04/nil-record-absent")
 	// a required/not_nil issue must reach the collection: the context of a non-catching node is catch-clean
 	ca := P.newCatchAnalysis()
 	dsites := P.allDispatchSites(ca)
@@ -599,4 +601,53 @@ func (P *Prog) checkPresentAtProvider(r *Result, rule string) {
 		}
 	}
 	r.floor(rule, 3)
+}
+
+// checkNilRecordAbsent: where a provider is built from a value (TryNewAnyDataProvider and the helpers it
+// calls), a pointer is followed with Elem() only after IsNil() was tested false. Elem() of a nil pointer is
+// the zero reflect.Value: its Kind is Invalid, so the "unsupported type" branch is taken - a typed nil record
+// then yields one coerce issue at the struct node and none of the per-field required issues, instead of
+// being an empty record.
+func (P *Prog) checkNilRecordAbsent(r *Result, rule string) {
+	n := 0
+	seen := map[*ssa.Function]bool{}
+	for _, mk := range P.providerMakers() {
+		for _, u := range P.allUnits(mk) {
+			fn := u.fn
+			if seen[fn] || fn.Parent() != nil {
+				continue
+			}
+			seen[fn] = true
+			k := 0
+			eachInstr(fn, func(b *ssa.BasicBlock, _ int, in ssa.Instruction) {
+				c, ok := in.(*ssa.Call)
+				if !ok {
+					return
+				}
+				ci := callOf(c)
+				if ci.static == nil || !isPkgFunc(ci.static, "reflect") || ci.static.Name() != "Elem" || !strings.Contains(typeStr(ci.static.Signature.Recv().Type()), "reflect.Value") {
+					return
+				}
+				recv := c.Call.Args[0]
+				n++
+				k++
+				cname := fmt.Sprintf("%s#Elem@%d", fname(fn), k)
+				r.sawFunc(fname(fn))
+				nilTested := P.guardedByCall(b, "IsNil", recv, false)
+				if !nilTested {
+					// the receiver may be a loop-carried value: the test on the value of this iteration
+					if ph, isPhi := recv.(*ssa.Phi); isPhi {
+						nilTested = P.guardedByCall(b, "IsNil", ph, false)
+					}
+				}
+				if nilTested {
+					r.ok(rule, cname, P.ipos(in), "pointer followed only after IsNil() was false")
+				} else {
+					r.bad(rule, cname, P.ipos(in), "a pointer in the input is followed with Elem() without an IsNil() test: a typed nil record becomes the zero reflect.Value and is reported as an unsupported type (one coerce issue, no per-field required issues) instead of being an empty record")
+				}
+			})
+		}
+	}
+	r.floor(rule, 1)
+	_ = n
 }
